@@ -178,7 +178,7 @@ MUTANTS = [
     ('C19', 'firewall-inverted', (R, NODE_PROTOCOL, "        if self.__send_event_firewall and not self.__send_event_firewall(event, self.__sock):", "        if self.__send_event_firewall and self.__send_event_firewall(event, self.__sock):"), 'C19.d'),
     # ---- C20
     ('C20', 'revert-malformed-header', ('revert', '054aacf'), 'C20.a'),
-    ('C20', 'revert-none-password', ('revert', '8f3a1a6'), 'C20.b'),
+    ('C20', 'none-password-reaches-check', (R, TOOLS, "            verified = password is not None and _httpauth.checkResponse(", "            verified = _httpauth.checkResponse("), 'C20.b'),
     ('C20', 'revert-gateways', ('revert', 'bff08fa'), 'C20.e'),
     ('C20', 'session-no-fingerprint', (R, SESSIONS, "    if user != who(request):\n        return create_session(request)\n", ""), 'C20.d'),
     ('C20', 'digest-no-realm', (R, HTTPAUTH, "    if auth_map['realm'] != kwargs.get('realm', None):\n        return False\n", ""), 'C20.c'),
@@ -223,6 +223,7 @@ MUTANTS = [
     ('C19', 'revert-stale-carry', ('revert', '57da474'), 'C19.m'),
     ('C19', 'revert-idle-attrs', ('revert', '17d9ca4'), 'C19.b'),
     ('C19', 'revert-create-keywords', ('revert', '9fd92bd'), 'C19.j'),
+    ('C20', 'revert-unparseable-credentials', ('revert', 'd878e4c'), 'C20.a'),
 ]
 
 # behaviour-preserving edits: the check of the property must stay silent
@@ -269,8 +270,8 @@ TWINS = [
     ('C19', 'firewall-positive', (R, NODE_PROTOCOL, "        if self.__receive_event_firewall and not self.__receive_event_firewall(event, self.__sock):\n            self.send_result(id, Value(event, self))\n        else:",
                                   "        if self.__receive_event_firewall and not self.__receive_event_firewall(event, self.__sock):\n            self.send_result(id, Value(event, self))\n            return\n        if True:"), None),
     ('C20', 'session-positive-form', (R, SESSIONS, "    if user != who(request):\n        return create_session(request)\n\n    return sid", "    if user == who(request):\n        return sid\n\n    return create_session(request)"), None),
-    ('C20', 'nested-none-test', (R, TOOLS, "        if password is not None and _httpauth.checkResponse(\n            ah, password, method=request.method, encrypt=encrypt, realm=realm\n        ):\n            request.login = ah['username']\n            return True",
-                                 "        if password is not None:\n            if _httpauth.checkResponse(ah, password, method=request.method, encrypt=encrypt, realm=realm):\n                request.login = ah['username']\n                return True"), None),
+    ('C20', 'nested-none-test', (R, TOOLS, "            verified = password is not None and _httpauth.checkResponse(\n                ah, password, method=request.method, encrypt=encrypt, realm=realm\n            )\n",
+                                 "            verified = False\n            if password is not None:\n                verified = _httpauth.checkResponse(ah, password, method=request.method, encrypt=encrypt, realm=realm)\n"), None),
     ('C01', 'twin-addhandler-local-table', (R, MANAGER, "            for name in method.names:\n                self._handlers.setdefault(name, set()).add(method)\n", "            for evname in method.names:\n                self._handlers.setdefault(evname, set()).add(method)\n"), None),
     ('C19', 'twin-dump-key-order', (R, NODE_UTILS, "        'id': id,\n        'name': e.name,\n", "        'name': e.name,\n        'id': id,\n"), None),
     ('C14', 'twin-error-status-first', (R, 'circuits/web/errors.py', "        self.response.close = True\n        self.response.status = self.code\n", "        self.response.status = self.code\n        self.response.close = True\n"), None),
